@@ -85,6 +85,27 @@ THOROUGH_EXTRA = [
 ]
 
 
+# a setup.py that is at once the preferred manifest (non-empty install_requires) and a source file several codemods rewrite:
+# a dependency written into it by one codemod must survive a later codemod's edit of the same file
+SETUP_PY = b'''import os
+import random
+
+from setuptools import setup
+
+BUILD = str(random.random())
+SIZE = sum([len(p) for p in ("a", "b")])
+
+setup(
+    name="demo",
+    version="0.1." + BUILD,
+    install_requires=[
+        "requests>=2",
+        "pyyaml",
+    ],
+)
+'''
+
+
 def canonical_seed(codemod):
     for s in progspace.load_seeds():
         if s.codemod == codemod and s.kind == "trigger" and s.batchable and s.compiles:
@@ -106,6 +127,7 @@ def project_for(k1, k2):
         "collide.py": COLLISION,
         "requirements.txt": MANIFEST,
         "setup.cfg": MANIFEST2,
+        "setup.py": SETUP_PY,
     }
     ab, ba = _concat(s1.input, s2.input), _concat(s2.input, s1.input)
     if ab:
